@@ -1,5 +1,7 @@
 import IpaVerif.Model.Util
 import IpaVerif.Model.Dp
+import IpaVerif.Model.Circuits
+import IpaVerif.Model.Padding
 import IpaVerif.Generated.C12Consts
 /-! Line-protocol handlers for property C12 (model side) and the spec-side oracle. Import-free.
 
@@ -41,6 +43,59 @@ def sampleOp (kind : String) (s p : Float) (pInt shift : Nat) (script : List Nat
       | .ok _ => done ((truncatedSample pInt shift (script.length + 1) script).map fun (a, r) => ((a : Int), r))
   | _ => "bad-request"
 
+/-! ### `dp_for_histogram`, DiscreteLaplace: three passes over `B` buckets -/
+
+def e2eModel (eps delta r p : Float) (ssBits pInt w : Nat) (hist s1 s2 s3 : List Nat) : String :=
+  match oprfNew floatArith cap eps delta (2 ^ ssBits) r p with
+  | .error e => "err " ++ e.name
+  | .ok shift =>
+    match laplaceModulus w with
+    | none => "panic:assertion failed: bit_size <= 32"
+    | some modulus =>
+      match (do
+        let h1 ← e2ePass pInt shift w modulus hist s1
+        let h2 ← e2ePass pInt shift w modulus h1 s2
+        e2ePass pInt shift w modulus h2 s3) with
+      | none => "panic:script exhausted"
+      | some out => s!"{showNatList out} ok"
+
+/-! ### `apply_dp_padding`: dummy rows of the three passes -/
+
+/-- bit `h` set iff helper `h` holds only zero shares of the row `(mk, bk, v)` generated with excluded helper `e`. -/
+def zeroMask (mk bk v e : Nat) : Nat :=
+  ((List.range 3).map fun h =>
+    if IpaVerif.Padding.placeShares mk e h == (0, 0) && IpaVerif.Padding.placeShares bk e h == (0, 0)
+      && IpaVerif.Padding.placeShares v e h == (0, 0) then 2 ^ h else 0).sum
+
+def rowStr (mk bk v e : Nat) : String := s!"{mk}.{bk}.{v}.{zeroMask mk bk v e}"
+
+/-- model of `apply_dp_padding::<_, IndistinguishableHybridReport<BK, V>, B>` on an empty input. -/
+def padOprfModel (pInt shift cardCap : Nat) (streams : List (List Nat)) : String :=
+  let passes := streams.zipIdx.map fun (s, i) => (IpaVerif.Padding.excludedOfPass (i + 1), IpaVerif.Padding.oprfPass pInt shift cardCap s)
+  if passes.any (fun p => p.2.isNone) then "panic:script exhausted" else
+  let rows := passes.flatMap fun (e, r) =>
+    match r with
+    | some (gs, _) => (IpaVerif.Padding.oprfRows gs).map fun rec => rowStr rec.key rec.bk rec.v e
+    | none => []
+  let lensOk := passes.all fun (_, r) =>
+    match r with
+    | some (gs, rest) => IpaVerif.Padding.oprfTotal gs == (IpaVerif.Padding.oprfRows gs).length && rest.isEmpty
+    | none => false
+  s!"{if rows.isEmpty then "-" else ",".intercalate rows} ok {if lensOk then "lens-equal" else "lens-differ"}"
+
+def padAggModel (pInt shift b bkBits : Nat) (streams : List (List Nat)) : String :=
+  let passes := streams.zipIdx.map fun (s, i) => (IpaVerif.Padding.excludedOfPass (i + 1), IpaVerif.Padding.aggPass pInt shift b s)
+  if passes.any (fun p => p.2.isNone) then "panic:script exhausted" else
+  let rows := passes.flatMap fun (e, r) =>
+    match r with
+    | some (l, _) => (IpaVerif.Padding.aggRows bkBits l).map fun row => rowStr 0 row.1 row.2 e
+    | none => []
+  let lensOk := passes.all fun (_, r) =>
+    match r with
+    | some (l, rest) => IpaVerif.Padding.aggTotal l == (IpaVerif.Padding.aggRows bkBits l).length && rest.isEmpty
+    | none => false
+  s!"{if rows.isEmpty then "-" else ",".intercalate rows} ok {if lensOk then "lens-equal" else "lens-differ"}"
+
 def handle (toks : List String) : Option String :=
   match toks with
   | ["c12.oprf", eps, delta, sens, r, p] => some <| (do
@@ -57,6 +112,21 @@ def handle (toks : List String) : Option String :=
       | .ok () => pure "ok"
       | .error m => pure ("err " ++ m)).getD "bad-request"
   | ["c12.maxeps"] => some (toString IpaVerif.Generated.C12.maxEpsilonBits)
+  | ["c12.e2e", _mode, b, w, ss, _seed, eps, delta, r, p, pInt, hist, s1, s2, s3] => some <| (do
+      let hist ← parseNatList hist
+      if hist.length ≠ (← b.toNat?) then pure "bad-request" else
+      pure (e2eModel (← fl eps) (← fl delta) (← fl r) (← fl p) (← ss.toNat?) (← pInt.toNat?) (← w.toNat?) hist
+        (← parseNatList s1) (← parseNatList s2) (← parseNatList s3))).getD "bad-request"
+  | "c12.e2e-broken" :: _ => some "streams-replayed"
+  | "c12.pad-broken" :: _ => some "streams-replayed"
+  | ["c12.pad", "oprf", _mode, _seed, eps, delta, sens, cardCap, r, p, pInt, s1, s2, s3] => some <| (do
+      match oprfNew floatArith cap (← fl eps) (← fl delta) (← sens.toNat?) (← fl r) (← fl p) with
+      | .error e => pure ("err " ++ e.name)
+      | .ok shift => pure (padOprfModel (← pInt.toNat?) shift (← cardCap.toNat?) [← parseNatList s1, ← parseNatList s2, ← parseNatList s3])).getD "bad-request"
+  | ["c12.pad", "agg", _mode, _seed, b, bkBits, eps, delta, sens, r, p, pInt, s1, s2, s3] => some <| (do
+      match oprfNew floatArith cap (← fl eps) (← fl delta) (← sens.toNat?) (← fl r) (← fl p) with
+      | .error e => pure ("err " ++ e.name)
+      | .ok shift => pure (padAggModel (← pInt.toNat?) shift (← b.toNat?) (← bkBits.toNat?) [← parseNatList s1, ← parseNatList s2, ← parseNatList s3])).getD "bad-request"
   | ["c12.sample", kind, s, p, pInt, shift, script] => some <| (do
       pure (sampleOp kind (← fl s) (← fl p) (← pInt.toNat?) (← shift.toNat?) (← parseNatList script))).getD "bad-request"
   | ["c12.shares", eps, delta, sens, r, p, pInt, bitSize, ov, dir, script] => some <| (do
@@ -267,6 +337,105 @@ def oracleShares (pInt bitSize ov : Nat) (dirLeft : Bool) (script : List Nat) (i
     | _, _, _ => some "unknown"
   | _ => if impl.startsWith "err" ∨ impl.startsWith "panic" then some s!"fails {impl}" else some "unknown"
 
+/-- spec side of `c12_noise_e2e`: the released bucket is the exact bucket plus the three pairwise draws, re-centred
+(`d − n`), modulo `2^w`; the draws are re-derived from the three streams by the outcome-stream reading of the
+sampler (`specTdg`), the truncation point `n` by the exact-rational law is checked separately (`c12.oprf`), here it
+is inferred from the model's constructor.  Also the weaker sampler-independent invariant: total noise ∈ [−3n, 3n]. -/
+def specDraws (pInt shift : Nat) : Nat → List Nat → Option (List Int)
+  | 0, _ => some []
+  | k + 1, script =>
+    match specTdg pInt shift script with
+    | none => none
+    | some (v, rest) => (specDraws pInt shift k rest).map ((v - (shift : Int)) :: ·)
+
+def oracleE2e (shift pInt w : Nat) (hist s1 s2 s3 : List Nat) (impl : String) : Option String :=
+  match impl.splitOn " " with
+  | [vals, fl] =>
+    match parseNatList vals, specDraws pInt shift hist.length s1, specDraws pInt shift hist.length s2, specDraws pInt shift hist.length s3 with
+    | some vals, some d1, some d2, some d3 =>
+      if fl ≠ "ok" then some "fails the released histogram is not a consistent sharing"
+      else if vals.length ≠ hist.length then some s!"fails {vals.length} buckets released, {hist.length} expected"
+      else
+        let bad := (List.range hist.length).findSome? fun i =>
+          let noise : Int := d1.getD i 0 + d2.getD i 0 + d3.getD i 0
+          let want := (((hist.getD i 0 : Nat) : Int) + noise) % ((2 ^ w : Nat) : Int)
+          let got : Int := ((vals.getD i 0 : Nat) : Int)
+          -- sampler-independent invariant: (noisy − exact) mod 2^w is within [−3n, 3n]
+          let diff := (got - ((hist.getD i 0 : Nat) : Int)) % ((2 ^ w : Nat) : Int)
+          let inBand := diff ≤ 3 * (shift : Int) ∨ diff ≥ ((2 ^ w : Nat) : Int) - 3 * (shift : Int)
+          if got ≠ want then
+            some s!"bucket {i}: exact {hist.getD i 0}, draws {d1.getD i 0}, {d2.getD i 0}, {d3.getD i 0}: released {got}, expected {want} = (exact + d1 + d2 + d3) mod 2^{w}"
+          else if ¬ inBand then some s!"bucket {i}: noise outside [-3n, 3n], n = {shift}"
+          else none
+        match bad with
+        | some why => some ("fails " ++ why)
+        | none => some "holds"
+    | _, _, _, _ => some "unknown"
+  | _ => if impl.startsWith "err" ∨ impl.startsWith "panic" ∨ impl.startsWith "timeout" then some s!"fails {impl}" else some "unknown"
+
+/-! ### spec side of `c12_dummies` (written without the `Padding` model: `specTdg` + list walking) -/
+
+structure PadRow where
+  key : Nat
+  bk : Nat
+  v : Nat
+  mask : Nat
+
+def parsePadRows (s : String) : Option (List PadRow) :=
+  if s = "-" then some [] else
+  (s.splitOn ",").mapM fun r =>
+    match r.splitOn "." with
+    | [a, b, c, d] => do pure ⟨← a.toNat?, ← b.toNat?, ← c.toNat?, ← d.toNat?⟩
+    | _ => none
+
+/-- expected dummies of one OPRF pass: list of `(key, cardinality)` groups in order. -/
+partial def specOprfGroups (pInt shift : Nat) (c cardCap : Nat) (s : List Nat) : Option (List (Nat × Nat)) :=
+  if c > cardCap then some [] else
+  match specTdg pInt shift s with
+  | none => none
+  | some (sample, rest) =>
+    let n := sample.toNat
+    let keys := (List.range n).map fun j => rest.getD (2 * j) 0 % 2 ^ 64
+    if rest.length < 2 * n then none else
+    (specOprfGroups pInt shift (c + 1) cardCap (rest.drop (2 * n))).map fun more => keys.map (·, c) ++ more
+
+partial def specAggCounts (pInt shift : Nat) (bk b : Nat) (s : List Nat) : Option (List (Nat × Nat)) :=
+  if bk ≥ b then some [] else
+  match specTdg pInt shift s with
+  | none => none
+  | some (sample, rest) => (specAggCounts pInt shift (bk + 1) b rest).map fun more => (bk, sample.toNat) :: more
+
+/-- walk the implementation's rows: every expected group `(key, bk, count)` of a pass with excluded helper `e`
+must appear as `count` consecutive rows with that key / breakdown key, zero value, and all-zero shares at `e`. -/
+def walkGroups (e : Nat) : List (Nat × Nat × Nat) → List PadRow → Except String (List PadRow)
+  | [], rows => .ok rows
+  | (key, bk, cnt) :: gs, rows =>
+    let grp := rows.take cnt
+    if grp.length < cnt then .error s!"fewer dummy rows than the sampler's draws determine (group key={key} bk={bk} of {cnt} rows)"
+    else match grp.find? fun r => r.key ≠ key ∨ r.bk ≠ bk ∨ r.v ≠ 0 ∨ (r.mask / 2 ^ e) % 2 ≠ 1 with
+      | some r => .error s!"dummy row mk={r.key} bk={r.bk} v={r.v} zero-mask={r.mask}: expected mk={key} bk={bk} v=0 and zero shares at helper {e + 1}"
+      | none => walkGroups e gs (rows.drop cnt)
+
+def oraclePad (groupsOfPass : List (Option (List (Nat × Nat × Nat)))) (impl : String) : Option String :=
+  match impl.splitOn " " with
+  | [rows, fl, lens] =>
+    match parsePadRows rows with
+    | none => some "unknown"
+    | some rows =>
+      if fl ≠ "ok" then some "fails a dummy row is not a consistent replicated sharing"
+      else if lens ≠ "lens-equal" then some "fails the three helpers appended different numbers of rows"
+      else if groupsOfPass.any (·.isNone) then some "unknown"
+      else
+        let r := (groupsOfPass.zipIdx).foldl (fun (acc : Except String (List PadRow)) (g, i) =>
+          match acc with
+          | .error e => .error e
+          | .ok rest => walkGroups (3 - (i + 1)) (g.getD []) rest) (.ok rows)
+        match r with
+        | .error why => some ("fails " ++ why)
+        | .ok [] => some "holds"
+        | .ok rest => some s!"fails {rest.length} more rows than the three passes' draws determine"
+  | _ => if impl.startsWith "err" ∨ impl.startsWith "panic" ∨ impl.startsWith "timeout" then some s!"fails {impl}" else some "unknown"
+
 def oracle (toks : List String) (impl : String) : Option String :=
   match toks with
   | ["c12.oprf", eps, delta, sens, r, _p] => (do
@@ -276,6 +445,30 @@ def oracle (toks : List String) (impl : String) : Option String :=
   | ["c12.geo", p] => (do oracleSimpleCtor "geo" 0 0 (← p.toNat?) impl) <|> some "unknown"
   | "c12.noise" :: rest => (do oracleNoise (← rest.mapM String.toNat?) impl) <|> some "unknown"
   | ["c12.maxeps"] => some (if impl == toString IpaVerif.Generated.C12.maxEpsilonBits then "holds" else "fails MAX_EPSILON differs from the extracted constant")
+  | ["c12.e2e", _mode, _b, w, ss, _seed, eps, delta, r, p, pInt, hist, s1, s2, s3] => (do
+      match oprfNew floatArith cap (← fl eps) (← fl delta) (2 ^ (← ss.toNat?)) (← fl r) (← fl p) with
+      | .error _ => some "unknown"
+      | .ok shift =>
+        oracleE2e shift (← pInt.toNat?) (← w.toNat?) (← parseNatList hist) (← parseNatList s1) (← parseNatList s2) (← parseNatList s3) impl) <|> some "unknown"
+  | ["c12.pad", "oprf", _mode, _seed, eps, delta, sens, cardCap, r, p, pInt, s1, s2, s3] => (do
+      match oprfNew floatArith cap (← fl eps) (← fl delta) (← sens.toNat?) (← fl r) (← fl p) with
+      | .error _ => some "unknown"
+      | .ok shift =>
+        let pInt ← pInt.toNat?
+        let cardCap ← cardCap.toNat?
+        let gp (s : List Nat) := (specOprfGroups pInt shift 1 cardCap s).map fun l => l.map fun (k, c) => (k, 0, c)
+        oraclePad [gp (← parseNatList s1), gp (← parseNatList s2), gp (← parseNatList s3)] impl) <|> some "unknown"
+  | ["c12.pad", "agg", _mode, _seed, b, bkBits, eps, delta, sens, r, p, pInt, s1, s2, s3] => (do
+      match oprfNew floatArith cap (← fl eps) (← fl delta) (← sens.toNat?) (← fl r) (← fl p) with
+      | .error _ => some "unknown"
+      | .ok shift =>
+        let pInt ← pInt.toNat?
+        let b ← b.toNat?
+        let bkBits ← bkBits.toNat?
+        let gp (s : List Nat) := (specAggCounts pInt shift 0 b s).map fun l => l.map fun (bk, cnt) => (0, bk % 2 ^ bkBits, cnt)
+        oraclePad [gp (← parseNatList s1), gp (← parseNatList s2), gp (← parseNatList s3)] impl) <|> some "unknown"
+  | "c12.pad-broken" :: why => some ("fails the pairwise PRSS streams could not be replayed: " ++ " ".intercalate why)
+  | "c12.e2e-broken" :: why => some ("fails the pairwise PRSS streams could not be replayed: " ++ " ".intercalate why)
   | ["c12.sample", kind, _s, _p, pInt, shift, script] => (do
       oracleSample kind (← pInt.toNat?) (← shift.toNat?) (← parseNatList script) impl) <|> some "unknown"
   | ["c12.shares", _eps, _delta, _sens, _r, _p, pInt, bitSize, ov, dir, script] => (do
